@@ -64,14 +64,20 @@ def assignment(types, i, o, idx):
 
 
 def model(nl):
-    """pure model of a netlist descriptor {'types','i','o','assign'} ->
-    {wire(source index): {'driver': source, 'readers': [sink, ...]}}"""
+    """pure model of a netlist descriptor {'types','i','o','assign'[,'alias']} ->
+    {wire(source index): {'drivers': [source, ...], 'readers': [sink, ...]}}
+    alias (only with i == 2): both in-ports are bound to ONE wire (what a block sees when its parent connects one
+    wire to two of its pins); source 1 then denotes the same wire as source 0."""
     src = sources(nl['types'], nl['i'])
     snk = sinks(nl['types'], nl['o'])
     assert len(nl['assign']) == len(snk)
-    wires = {n: {'driver': s, 'readers': []} for n, s in enumerate(src)}
+    alias = bool(nl.get('alias'))
+    assert not alias or nl['i'] == 2
+    wires = {n: {'drivers': [s], 'readers': []} for n, s in enumerate(src) if not (alias and n == 1)}
+    if alias:
+        wires[0]['drivers'].append(src[1])
     for pin, a in zip(snk, nl['assign']):
-        wires[a]['readers'].append(pin)
+        wires[0 if (alias and a == 1) else a]['readers'].append(pin)
     return wires
 
 
@@ -116,7 +122,9 @@ def truth(block):
     for e in wires.values():
         if e['readers'] and not e['drivers']:
             problems.append('undriven wire %s' % e['wire'].name)
-        if len(e['drivers']) > 1:
+        # several in-ports of the block bound to one wire (e.g. Add(a, a, r) seen from inside) are all pins of
+        # that wire; an instance output among several drivers is a real conflict and outside the statement
+        if len(e['drivers']) > 1 and not all(o is p for o, p in e['drivers']):
             problems.append('wire %s has %d drivers' % (e['wire'].name, len(e['drivers'])))
     return wires, problems
 
@@ -127,6 +135,8 @@ def wire_family(block, wires, e):
     idx = {id(c): n for n, c in enumerate(children)}
     drv = e['drivers'][0][0] if e['drivers'] else None
     rd_inst = [o for o, _ in e['readers'] if id(o) in idx]
+    if drv is not None and any(o is drv for o in rd_inst):
+        return 'self_loop'              # an instance reads its own output (Reg holding its value, or a combinational loop)
     if len(rd_inst) != len({id(o) for o in rd_inst}):
         return 'same_wire_two_pins'
     # instance graph
@@ -301,11 +311,14 @@ def judge(block, sch, wires):
         if len(comps) > 1:
             bad('net_disconnected', 'the %d nets drawn for wire %s form %d separate pieces' % (len(nets), w.name, len(comps)), w)
         want = set()
-        for owner, port in e['drivers'][:1]:
+        hit = False
+        for owner, port in e['drivers']:
             want.add((id(owner), id(port), 'source'))
-            if not any(t[:3] == (id(owner), id(port), 'source') and t[3] for t in touched):
-                bad('driver_pin_missing', 'no net of wire %s starts at its driver %s.%s' % (
-                    w.name, getattr(owner, 'name', '?'), port.name), w)
+            hit = hit or any(t[:3] == (id(owner), id(port), 'source') and t[3] for t in touched)
+        if not hit:
+            # "the pin that really drives the wire"; when several block in-ports share the wire, one of them suffices
+            bad('driver_pin_missing', 'no net of wire %s starts at its driver %s' % (
+                w.name, ' / '.join('%s.%s' % (getattr(o, 'name', '?'), p.name) for o, p in e['drivers'])), w)
         for owner, port in e['readers']:
             want.add((id(owner), id(port), 'sink'))
             if not any(t[:3] == (id(owner), id(port), 'sink') and t[3] for t in touched):
@@ -322,7 +335,9 @@ def drawing_signature(sch):
     m = sch.symbol_matrix
     nr, nc = m.shape
     cells = tuple((r, c, type(m[r, c]).__name__) for r in range(nr) for c in range(nc) if m[r, c] is not None)
-    return (nr, nc, cells, len(sch.nets))
+    ends = tuple(sorted((getattr(n.source, 'r', -1), getattr(n.source, 'c', -1), getattr(n.sink, 'r', -1),
+                         getattr(n.sink, 'c', -1)) for n in sch.nets))
+    return (nr, nc, cells, len(sch.nets), ends)
 
 
 def markers(sch):
